@@ -69,8 +69,10 @@ def neg(x):
 
 
 class Evaluator:
-    def __init__(self, F, call_hook=None, max_paths=400, inline=None):
+    def __init__(self, F, call_hook=None, max_paths=400, inline=None, ints=False):
         self.F = F
+        self.ints = ints                # fold integer arithmetic, constants, arrays, ranges and Option / bool combinators with closures
+        self._consts = {}
         self.call_hook = call_hook      # fn(callee, args) -> abstract value or None
         self.max_paths = max_paths
         self.inline = inline or set()   # callee names to evaluate recursively (one level)
@@ -118,6 +120,12 @@ class Evaluator:
                 return v[1] == p["v"]
             if v[0] == "lit":
                 return v[1] == p["v"]
+            return None
+        if k == "Range" and self.ints:
+            lo, hi = p.get("lo"), p.get("hi")
+            if v[0] == "lit" and isinstance(v[1], int) and not isinstance(v[1], bool) and (lo is None or isinstance(lo.get("v"), int)) and (hi is None or isinstance(hi.get("v"), int)):
+                ok = (lo is None or lo["v"] <= v[1]) and (hi is None or (v[1] <= hi["v"] if p.get("end") == "Included" else v[1] < hi["v"]))
+                return ok
             return None
         if k == "Tuple":
             if v[0] == "tuple" and len(v[1]) == len(p["ps"]):
@@ -193,8 +201,37 @@ class Evaluator:
             yield st, ("v", "Boolean", [mk_bool(True)])
         elif path.endswith("::VALUE_FALSE"):
             yield st, ("v", "Boolean", [mk_bool(False)])
+        elif self.ints and "Const" in dk and self.const_value(path) is not None:
+            yield st, self.const_value(path)
         else:
             yield st, ("def", path)
+
+    def const_value(self, path):
+        """folded value of a constant item (integers, arrays of integers); None when it does not fold"""
+        if path not in self._consts:
+            self._consts[path] = None
+            h = self.F.hir.get(path)
+            if h is not None and h.get("kind") == "const" and len(self._consts) < 200:
+                try:
+                    outs = list(self.ev(h["body"], State({})))
+                except TooManyPaths:
+                    outs = []
+                if len(outs) == 1 and self.concrete(outs[0][1]):
+                    self._consts[path] = outs[0][1]
+        return self._consts[path]
+
+    def concrete(self, v):
+        if v[0] == "lit":
+            return True
+        if v[0] == "bool":
+            return True
+        if v[0] in ("array", "tuple") and len(v) > 1 and isinstance(v[1], list):
+            return all(self.concrete(x) for x in v[1])
+        if v[0] == "v":
+            return all(self.concrete(x) for x in v[2])
+        if v[0] == "range":
+            return self.concrete(v[1]) and self.concrete(v[2])
+        return False
 
     def ev_AddrOf(self, e, st):
         yield from self.ev(e["e"], st)
@@ -208,6 +245,8 @@ class Evaluator:
                 yield s, a
             elif e["op"] == "!":
                 yield s, neg(a)
+            elif self.ints and e["op"] == "-" and self.as_lin(a) is not None:
+                yield s, self.binop("-", ("lit", 0), a)
             else:
                 yield s, ("un", e["op"], a)
 
@@ -257,6 +296,17 @@ class Evaluator:
             if b == mk_bool(True):
                 return b
             return ("or", a, b)
+        if self.ints and a[0] == "lit" and b[0] == "lit" and isinstance(a[1], int) and isinstance(b[1], int) and not isinstance(a[1], bool) and not isinstance(b[1], bool):
+            x, y = a[1], b[1]
+            if op in ("==", "!=", "<", "<=", ">", ">="):
+                return mk_bool({"==": x == y, "!=": x != y, "<": x < y, "<=": x <= y, ">": x > y, ">=": x >= y}[op])
+            if op in ("+", "-", "*"):
+                return ("lit", {"+": x + y, "-": x - y, "*": x * y}[op])
+            if op in ("/", "%") and y != 0:
+                q = abs(x) // abs(y) * (1 if (x >= 0) == (y >= 0) else -1)      # Rust: truncation towards zero
+                return ("lit", q if op == "/" else x - q * y)
+        if self.ints and a[0] == "lit" and b[0] == "lit" and isinstance(a[1], str) and isinstance(b[1], str) and op in ("==", "!="):
+            return mk_bool((a[1] == b[1]) == (op == "=="))
         if op in ("==", "!=", "<", "<=", ">", ">="):
             # comparison with an Ordering constant
             for x, y, flip in ((a, b, False), (b, a, True)):
@@ -277,7 +327,42 @@ class Evaluator:
                 # two field-less enum constructors (Ordering::Less == Ordering::Less)
                 return mk_bool((a[1] == b[1]) == (op == "=="))
             return canon_cmp(op, a, b)
+        if self.ints and op in ("+", "-", "*"):
+            la, lb = self.as_lin(a), self.as_lin(b)
+            if la is not None and lb is not None:
+                if op == "*":
+                    if not la[0]:
+                        la, lb = lb, la
+                    if not lb[0]:
+                        k = lb[1]
+                        return self.mk_lin({v: c * k for v, c in la[0].items()}, la[1] * k)
+                else:
+                    sg = 1 if op == "+" else -1
+                    d = dict(la[0])
+                    for v, c in lb[0].items():
+                        d[v] = d.get(v, 0) + sg * c
+                    return self.mk_lin(d, la[1] + sg * lb[1])
         return ("bin", op, a, b)
+
+    @staticmethod
+    def as_lin(v):
+        """(coefficients, constant) of an integer-valued abstract value: literal, symbol or linear form"""
+        if v[0] == "lit" and isinstance(v[1], int) and not isinstance(v[1], bool):
+            return {}, v[1]
+        if v[0] == "sym":
+            return {v[1]: 1}, 0
+        if v[0] == "lin":
+            return dict(v[1]), v[2]
+        return None
+
+    @staticmethod
+    def mk_lin(d, k):
+        d = {v: c for v, c in d.items() if c != 0}
+        if not d:
+            return ("lit", k)
+        if k == 0 and len(d) == 1 and list(d.values()) == [1]:
+            return ("sym", list(d)[0])
+        return ("lin", tuple(sorted(d.items())), k)
 
     def ev_Block(self, e, st):
         yield from self.block(e["b"], st)
@@ -357,9 +442,11 @@ class Evaluator:
                     yield s1, ("unit",)
             else:
                 # symbolic condition: evaluate both, merge into ite when both are single-path pure values
-                ts = list(self.ev(e["then"], s1.fork(("if", self.short(v), True))))
-                es = list(self.ev(e["else"], s1.fork(("if", self.short(v), False)))) if "else" in e else [(s1.fork(("if", self.short(v), False)), ("unit",))]
-                if len(ts) == 1 and len(es) == 1 and ts[0][0].ret is None and es[0][0].ret is None and not ts[0][0].brk and not es[0][0].brk \
+                ct = ("if", self.short(v), True) + ((v,) if self.ints else ())
+                cf = ("if", self.short(v), False) + ((v,) if self.ints else ())
+                ts = list(self.ev(e["then"], s1.fork(ct)))
+                es = list(self.ev(e["else"], s1.fork(cf))) if "else" in e else [(s1.fork(cf), ("unit",))]
+                if not self.ints and len(ts) == 1 and len(es) == 1 and ts[0][0].ret is None and es[0][0].ret is None and not ts[0][0].brk and not es[0][0].brk \
                         and ts[0][0].env == s1.env and es[0][0].env == s1.env:
                     yield s1, ("ite", v, ts[0][1], es[0][1])
                 else:
@@ -486,6 +573,14 @@ class Evaluator:
                 yield s, ("unit",)
 
     def ev_AssignOp(self, e, st):
+        a = e.get("a", {})
+        if self.ints and a.get("k") == "Path" and a.get("res") == "local":
+            for s, v in self.ev(e["b"], st):
+                s2 = s.fork()
+                old = s2.env.get(a["name"], ("sym", a["name"]))
+                s2.env[a["name"]] = self.binop((e.get("op") or "").rstrip("="), old, v)
+                yield s2, ("unit",)
+            return
         yield st, ("unit",)
 
     def ev_Field(self, e, st):
@@ -494,15 +589,114 @@ class Evaluator:
 
     def ev_Index(self, e, st):
         for s, v in self.ev(e["a"], st):
+            if self.ints and v[0] == "array" and len(v) > 1 and "b" in e:
+                for s2, i in self.ev(e["b"], s):
+                    if i[0] == "lit" and isinstance(i[1], int) and 0 <= i[1] < len(v[1]):
+                        yield s2, v[1][i[1]]
+                    else:
+                        yield s2, ("index", v)
+                continue
             yield s, ("index", v)
 
     def ev_Closure(self, e, st):
-        yield st, ("closure", e.get("name"))
+        if self.ints:
+            yield st, ("closure", e.get("name"), e, dict(st.env))
+        else:
+            yield st, ("closure", e.get("name"))
+
+    def apply_closure(self, clo, args, s):
+        """value(s) of calling a closure value: the body is evaluated in the captured environment; `return` / `?` inside leave the closure only"""
+        node = clo[2]
+        sub = State(dict(clo[3]), s.conds)
+        for p, a in zip(node.get("params", []), args):
+            self.match(p.get("p", p), a, sub.env)
+        for s2, v in self.ev(node["body"], sub):
+            yield State(s.env, s2.conds, s.ret, s.brk), (s2.ret if s2.ret is not None else v)
 
     def ev_Struct(self, e, st):
+        path = e.get("path") or ""
+        if self.ints and path in ("core::ops::Range", "core::ops::range::Range", "core::ops::RangeInclusive", "core::ops::range::RangeInclusive"):
+            f = {x["name"]: x["e"] for x in e.get("fields", [])}
+            if "start" in f and "end" in f:
+                for s1, lo in self.ev(f["start"], st):
+                    for s2, hi in self.ev(f["end"], s1):
+                        yield s2, ("range", lo, hi, "Inclusive" in path)
+                return
         yield st, ("struct", e.get("path"))
 
+    def builtin(self, callee, method, args, s):
+        """folding of std combinators over known operands (ints mode); yields (state, value) or nothing when it does not apply"""
+        c = callee or ""
+        a0 = args[0] if args else None
+        some = lambda x: ("v", "Some", [x])
+        none = ("v", "None", [])
+        is_opt = lambda v: v[0] == "v" and v[1] in ("Some", "None")
+        if c.endswith("RangeInclusive::<Idx>::new") and len(args) == 2:
+            yield s, ("range", args[0], args[1], True)
+        elif method == "contains" and "ops::range::Range" in c and len(args) == 2 and a0[0] == "range":
+            lo, hi, x = a0[1], a0[2], args[1]
+            if lo[0] == "lit" and hi[0] == "lit" and x[0] == "lit" and all(isinstance(v[1], int) for v in (lo, hi, x)):
+                yield s, mk_bool(lo[1] <= x[1] and (x[1] <= hi[1] if a0[3] else x[1] < hi[1]))
+            else:
+                yield s, self.binop("&&", self.binop("<=", lo, x), self.binop("<=" if a0[3] else "<", x, hi))
+        elif c.startswith("core::option::Option") and method in ("map", "and_then", "filter", "is_some_and") and len(args) == 2 and args[1][0] == "closure" and len(args[1]) == 4:
+            forks = [(s, a0)] if is_opt(a0) else [(s.fork(("if-let", "Some(_)", self.short(a0), True)), some(("payload", 0, a0))), (s.fork(("if-let", "Some(_)", self.short(a0), False)), none)]
+            for s1, o in forks:
+                if o[1] == "None":
+                    yield s1, (none if method != "is_some_and" else mk_bool(False))
+                    continue
+                for s2, r in self.apply_closure(args[1], [o[2][0]], s1):
+                    if method == "map":
+                        yield s2, some(r)
+                    elif method == "filter":
+                        yield s2, (o if r == mk_bool(True) else none if r == mk_bool(False) else ("ite", r, o, none))
+                    else:
+                        yield s2, r
+        elif c.startswith("core::bool::<impl bool>::then") and len(args) == 2:
+            conds = [(s, a0)] if a0[0] == "bool" else [(s.fork(("if", self.short(a0), True)), mk_bool(True)), (s.fork(("if", self.short(a0), False)), mk_bool(False))]
+            for s1, b in conds:
+                if not b[1]:
+                    yield s1, none
+                elif method == "then_some":
+                    yield s1, some(args[1])
+                elif args[1][0] == "closure" and len(args[1]) == 4:
+                    for s2, r in self.apply_closure(args[1], [], s1):
+                        yield s2, some(r)
+                else:
+                    yield s1, some(("call", None, [args[1]]))
+        elif c.startswith("core::option::Option") and method in ("copied", "cloned") and len(args) == 1:
+            yield s, a0
+        elif c.startswith("core::result::Result") and method == "ok" and len(args) == 1 and a0[0] == "v" and a0[1] in ("Ok", "Err"):
+            yield s, (some(a0[2][0]) if a0[1] == "Ok" else none)
+        elif c.startswith("core::option::Option") and method in ("unwrap_or", "unwrap_or_default") and is_opt(a0) and (a0[1] == "Some" or len(args) == 2):
+            yield s, (a0[2][0] if a0[1] == "Some" else args[1])
+        elif c.startswith("core::result::Result") and method in ("is_ok", "is_err") and len(args) == 1 and a0[0] == "v" and a0[1] in ("Ok", "Err"):
+            yield s, mk_bool((a0[1] == "Ok") == (method == "is_ok"))
+        elif c.startswith("core::option::Option") and method in ("is_some", "is_none") and is_opt(a0):
+            yield s, mk_bool((a0[1] == "Some") == (method == "is_some"))
+        elif c.startswith("core::slice::<impl [T]>::get") and len(args) == 2 and a0[0] == "array" and len(a0) > 1 and args[1][0] == "lit" and isinstance(args[1][1], int):
+            yield s, (some(a0[1][args[1][1]]) if 0 <= args[1][1] < len(a0[1]) else none)
+        elif c.startswith("core::slice::<impl [T]>::len") and len(args) == 1 and a0[0] == "array" and len(a0) > 1:
+            yield s, ("lit", len(a0[1]))
+        elif (c.startswith("core::convert::num::") or c in ("core::convert::From::from", "core::convert::Into::into")) and len(args) == 1 and a0[0] == "lit" and isinstance(a0[1], int):
+            yield s, a0
+        elif method in ("abs", "unsigned_abs") and c.startswith("core::num::") and len(args) == 1 and a0[0] == "lit" and isinstance(a0[1], int):
+            yield s, ("lit", abs(a0[1]))
+        elif method in ("rem", "div", "add", "sub", "mul") and c.startswith("core::ops::arith::") and len(args) == 2:
+            yield s, self.binop({"rem": "%", "div": "/", "add": "+", "sub": "-", "mul": "*"}[method], args[0], args[1])
+        elif callee is not None and callee.startswith("local:") and False:
+            pass
+
     def ev_Array(self, e, st):
+        if self.ints and "es" in e:
+            def rec(i, s, acc):
+                if i == len(e["es"]):
+                    yield s, ("array", list(acc))
+                    return
+                for s2, v in self.ev(e["es"][i], s):
+                    yield from rec(i + 1, s2, acc + [v])
+            yield from rec(0, st, [])
+            return
         yield st, ("array",)
 
     def ev_Call(self, e, st):
@@ -549,6 +743,14 @@ class Evaluator:
             if callee in self.inline:
                 yield from self.inline_call(callee, args, s)
                 continue
+            if self.ints:
+                if callee.startswith("local:") and s.env.get(callee[6:], ("?",))[0] == "closure" and len(s.env[callee[6:]]) == 4:
+                    yield from self.apply_closure(s.env[callee[6:]], args, s)
+                    continue
+                rs = list(self.builtin(callee, callee.split("::")[-1], args, s))
+                if rs:
+                    yield from rs
+                    continue
             yield s, ("call", callee, args)
 
     def ev_MethodCall(self, e, st):
@@ -589,6 +791,11 @@ class Evaluator:
                 if callee in self.inline:
                     yield from self.inline_call(callee, [recv] + args, s)
                     continue
+                if self.ints:
+                    rs = list(self.builtin(callee, method, [recv] + args, s))
+                    if rs:
+                        yield from rs
+                        continue
                 yield s, ("call", callee, [recv] + args)
 
     def inline_call(self, callee, args, s):
